@@ -12,8 +12,12 @@ use vcommon::Run;
 /// Shapes whose generated bindings do not compile on the unchanged tree (found by this engine,
 /// reported; building is C09's property). They are left out up front so that the chunks compile
 /// in one round. Returns the reason.
-pub fn known_uncompilable(t: &Ty, _cfg: &Config) -> Option<&'static str> {
-    let _ = t;
+pub fn known_uncompilable(t: &Ty, cfg: &Config) -> Option<&'static str> {
+    // `list<T, N>` with a heap-carrying element as an *owned* import parameter: the generated
+    // lowering moves out of the array by index (`let vec0 = x[0];`, error E0508).
+    if !cfg.borrowing && t.contains(&|t| matches!(t, Ty::FixedList(e, _) if e.contains_heap())) {
+        return Some("import lowering of list<T, N> with a heap-carrying element moves out of the array by index (E0508)");
+    }
     None
 }
 
